@@ -2,6 +2,6 @@ SPECIFICATION MCSpec
 CONSTANTS
   Palette <- Pal
   MaxAdd = 3  MaxSess = 2  MaxReq = 3  MaxTime = 3
-  CheckStart = TRUE  CheckIssue = TRUE  CheckPF = TRUE
-INVARIANTS Justified SingleUse OnePlace OwnGrantsOnly NoIssuing
+  CheckStart = TRUE  CheckIssue = TRUE  CheckPF = TRUE  MaxToggle = 1
+INVARIANTS Justified SingleUse OnePlace OwnGrantsOnly NoIssuing AdmittedOnlyWhenEnabled
 CHECK_DEADLOCK FALSE
